@@ -489,6 +489,61 @@ fn main() {
                 panic!("{}", bad.join("; "));
             }
         }
+        // C07: a thread can exit while the collector is busy, whatever it left in its queue
+        "exit-with-full-queue-while-reporter-busy" => {
+            struct Gated(Rep, Arc<AtomicBool>, Arc<AtomicBool>);
+            impl Reporter for Gated {
+                fn report(&mut self, spans: Vec<SpanRecord>) {
+                    if !spans.is_empty() && !self.1.swap(true, Ordering::SeqCst) {
+                        let t = Instant::now();
+                        while !self.2.load(Ordering::SeqCst) && t.elapsed() < Duration::from_secs(60) {
+                            std::thread::sleep(Duration::from_millis(1));
+                        }
+                    }
+                    self.0.report(spans);
+                }
+            }
+            let rep = Rep::default();
+            let entered = Arc::new(AtomicBool::new(false));
+            let release = Arc::new(AtomicBool::new(false));
+            fastrace::set_reporter(Gated(rep.clone(), entered.clone(), release.clone()), Config::default().report_interval(Duration::from_millis(3)));
+            small_trace(0xEE01, "before");
+            if !wait_until(Duration::from_secs(10), || entered.load(Ordering::SeqCst)) {
+                extra = json!({"skipped": "the background collector never called report()"});
+                return;
+            }
+            // the collector is inside report(): nothing is drained. A worker fills its queue, finishes a
+            // root (the finish signal is parked behind the full queue) and returns.
+            let (tx, rx) = std::sync::mpsc::channel();
+            let worker = std::thread::spawn(move || {
+                let root = Span::root("worker-root", SpanContext::new(TraceId(0xEE02), SpanId(1)));
+                for _ in 0..11_000 {
+                    root.add_event(Event::new("e"));
+                }
+                drop(root);
+                let _ = tx.send(());
+            });
+            let body_done = rx.recv_timeout(Duration::from_secs(30)).is_ok();
+            // 30 s are ten thousand report intervals: a watchdog for "never", not a deadline
+            let t = Instant::now();
+            let mut exited = false;
+            while t.elapsed() < Duration::from_secs(30) {
+                if worker.is_finished() {
+                    exited = true;
+                    break;
+                }
+                std::thread::sleep(Duration::from_millis(5));
+            }
+            release.store(true, Ordering::SeqCst);
+            let _ = worker.join();
+            extra = json!({"worker_body_returned": body_done, "worker_thread_exited_while_the_reporter_was_busy": exited});
+            if !body_done {
+                panic!("tracing calls on a thread with a full queue did not return within 30 s while the reporter was busy");
+            }
+            if !exited {
+                panic!("a thread that had filled its queue and finished a root could not exit within 30 s while the collector was busy inside report(): its thread-local teardown waits for the collector");
+            }
+        }
         // C07: report() runs on the library's threads; a reporter that needs an ordinary amount of
         // stack (well inside the default 2 MiB of a Rust thread) must not bring the process down
         "reporter-needs-stack" => {
